@@ -361,7 +361,7 @@ class Gen:
         for _ in range(rng.randint(1, 2)):
             f = rng.choice(fields + self.FREE)
             p[f] = self.value() if f in self.FREE else self.typed(f)
-        if self.mongo:
+        if self.mongo and not MONGO_NOOP_UPDATES:
             p['u'] = uid
         for k, v in p.items():
             self.pool[coll].setdefault(k, []).append(v)
@@ -474,9 +474,33 @@ class Gen:
         limit = rng.choice([None, None, 1, 2, 3, 100] if self.mongo else [None, None, 0, 1, 2, 3, 100])
         return {'uid': uid, 'op': 'query', 'coll': coll, 'fields': fields, 'filt': self.filt(coll), 'sort': sort, 'limit': limit}
 
+    def repeat(self, done):
+        """idempotence: re-issue an earlier operation unchanged (the same insert with an explicit id -> refused or accepted
+        again after a removal; the same remove -> 0; the same replace -> still True, with content identical to what is
+        stored; the same update), or write back the very record an insert stored"""
+        rng = self.rng
+        cands = [o for o in done if (o['op'] == 'insert' and o['id'] is not None) or o['op'] in ('remove', 'replace')
+                 or (o['op'] == 'update' and (MONGO_NOOP_UPDATES or not self.mongo))]
+        autos = [o for o in done if o['op'] == 'insert' and o['id'] is None]
+        self.uid += 1
+        if autos and rng.random() < 0.3:
+            o = rng.choice(autos)
+            return {'uid': self.uid, 'op': 'replace', 'coll': o['coll'], 'id': Ref(o['uid']), 'record': copy.deepcopy(o['record'])}
+        if not cands:
+            self.uid -= 1
+            return None
+        o = cands[-1] if rng.random() < 0.5 else rng.choice(cands)
+        o2 = copy.deepcopy(o)
+        o2['uid'] = self.uid
+        return o2
+
     def sequence(self, maxlen=40):
         n = self.rng.randint(4, maxlen)
-        return [self.op() for _ in range(n)]
+        out = []
+        for _ in range(n):
+            o = self.repeat(out) if out and self.rng.random() < 0.12 else None
+            out.append(o or self.op())
+        return out
 
 
 def seq_to_json(seq):
@@ -529,7 +553,7 @@ def mongo_safe_seq(seq):
         for k in ('record', 'part'):
             if k in o and not ok(o[k]):
                 return False
-        if o['op'] == 'update' and 'u' not in o['part']:
+        if o['op'] == 'update' and not MONGO_NOOP_UPDATES and 'u' not in o['part']:
             return False
         if o['op'] == 'query' and o['limit'] == 0:
             return False
@@ -620,6 +644,12 @@ MUT = '\x00mutated-by-caller'
 # in fixes/C06-json-copy-inputs.diff.  Until that repair (or a known entry {"input_aliasing": true}) is in place the
 # mutation of *inputs* is exercised on the Redis and Mongo drivers only; set to True afterwards.
 JSON_INPUT_MUTATION = True
+# The Mongo driver's update() returns modified_count: a matching record that already holds the new values is not counted,
+# where the reference store and the JSON / Redis drivers return the number of records matched (finding 9 in notes/C06.md,
+# repair proposed in fixes/C06-mongo-update-matched-count.diff).  Until that repair (or a known entry
+# {"driver": "mongo", "op": "update", "observed": "count"}) is in, updates generated for the Mongo profile always set a
+# fresh value; set to True afterwards.
+MONGO_NOOP_UPDATES = False
 
 
 def vandalise(v):
@@ -764,7 +794,7 @@ def eval_cases(ctx, name, cases):
         shards.append('\n'.join(case_text(k, s, 'c%d' % x) for x, (k, s) in enumerate(chunk))
                       + '\nDefinition cases : list (Z * list stepc) := [%s].\n' % '; '.join('c%d' % x for x in range(len(chunk))))
         spans.append(i)
-    outs = coq.eval_shards(ctx.workdir, name, HEADER, shards, ['bad_spec cases', 'bad_model cases'])
+    outs = coq.eval_shards(ctx.workdir, name, HEADER, shards, ['bad_spec cases', 'bad_model cases'], jobs=2)
     bad_spec, bad_model, errors = {}, {}, []
     for (rc, lists, err), base in zip(outs, spans):
         if rc != 0 or len(lists) != 2:
@@ -1162,7 +1192,7 @@ def check(ctx, res):
     corpus = load_corpus()
     if corpus:
         run_batch(ctx, res, corpus, kinds, 'corpus')
-    n = ctx.n(400, 30000)
+    n = ctx.n(350, 30000)
     _generated(ctx, res, rng, n, kinds)
     codec_cases(ctx, res, rng, ctx.n(300, 5000))
     if 'mongo' in kinds:
